@@ -594,8 +594,16 @@ def _run_rules(ctx, report):
         witness.check(report, "C17.WITNESS", ["W9"])
 
 
+ENCAPSULATED_NOTE = (" (ENCAPSULATED) The premise of all of these - the crate's own code is the only thing that touches this state - is an obligation "
+                     "of its own: no field of the types the state lives in can be named outside the crate (effective visibility), and no function a "
+                     "user can call hands out `&mut` to one of them.")
+EXPLANATION = EXPLANATION + ENCAPSULATED_NOTE
+TECHNIQUE = TECHNIQUE + "; encapsulation inventory on rustc's effective visibilities (fields of state types, `&mut` results of callable functions)"
+
+
 def run(ctx, report):
     _run_rules(ctx, report)
     from .. import shared as _S
+    report.guard("C17.CONFIGS", _S.configurations, ctx, report, "C17.CONFIGS")
     for config in ctx.configs:
         report.guard("C17.ENCAPSULATED", _S.encapsulated, ctx, report, "C17.ENCAPSULATED", ctx.facts(config), config, "C17")
